@@ -18,7 +18,8 @@ mvars == <<cvars, fv>>
 
 Pairs == {"ts_go", "go_ts", "ts_ts"}
 Verbs == {"GET", "POST", "PUT", "DELETE", "PATCH"}
-\* route: pq = /s<i>/{p} plus query parameters q (optional), rq (required); p = path variable only;
+\* route: pq = /s<i>/{p} plus query parameters q (plain), rq (required), rep (repeated), oq (proto3
+\*        optional: presence counts); p = path variable only;
 \*        deep = two path variables around a literal; default = no http config (POST, derived route)
 Routes == {"pq", "p", "deep", "default"}
 UrlKinds == {"string", "int32", "int64", "uint64", "bool", "double"}
@@ -47,12 +48,13 @@ Family == {c \in Cases :
                 \/ (Differs(c) = {"route", "hmode"} /\ c.hmode = "client_typed")}
 
 BodyFields(c) == IF BodyVerb(c.verb) THEN <<"b">> ELSE <<>>
-Fields(c) == CASE c.route = "pq" -> <<"p", "q", "rq">> \o BodyFields(c)
+Fields(c) == CASE c.route = "pq" -> <<"p", "q", "rq", "rep", "oq">> \o BodyFields(c)
                [] c.route = "p" -> <<"p">> \o BodyFields(c)
                [] c.route = "deep" -> <<"p", "p2">> \o BodyFields(c)
                [] c.route = "default" -> <<"b">>
 PathVars(c) == CASE c.route \in {"pq", "p"} -> <<"p">> [] c.route = "deep" -> <<"p", "p2">> [] OTHER -> <<>>
-Query(c) == IF c.route = "pq" THEN <<[field |-> "q", name |-> "q", required |-> FALSE], [field |-> "rq", name |-> "rq", required |-> TRUE]>> ELSE <<>>
+Query(c) == IF c.route = "pq" THEN <<[field |-> "q", name |-> "q", required |-> FALSE], [field |-> "rq", name |-> "rq", required |-> TRUE],
+                                    [field |-> "rep", name |-> "rep", required |-> FALSE], [field |-> "oq", name |-> "oq", required |-> FALSE]>> ELSE <<>>
 RpcOf(c) == [name |-> "M", verb |-> c.verb, fields |-> Fields(c), pathVars |-> PathVars(c), query |-> Query(c)]
 ValOf(c) == [i \in DOMAIN Fields(c) |-> [k |-> Fields(c)[i], v |-> "V_" \o Fields(c)[i]]]
 HdrsOf(c) == IF c.hmode = "none" THEN <<>> ELSE <<[k |-> c.hname, v |-> "HV"]>>
